@@ -153,7 +153,9 @@ _ARR_RE = re.compile(r"^(f32|f64|f|r32|r64|i16|i32|i64|i|u16|u32|u8|bool)\[(.*)\
 def parse_type(t):
     """-> ('int'|'float'|'bool'|'str'|'bv',w) | ('arr', dt, ndim) | ('flist', n) | ('func', target) | ('obj',) | ('tuple', [...])"""
     if isinstance(t, dict):
-        return ("ds", t)
+        if "vars" in t or "coords" in t or "attrs" in t or "sizes" in t:
+            return ("ds", t)
+        return ("dict", t)
     if isinstance(t, (tuple, list)):
         return ("tuple", [parse_type(x) for x in t])
     if t in ("int", "float", "bool", "str", "obj", "none"):
